@@ -23,7 +23,7 @@ uint64_t enum_size(Context &gc);
 ops::Plan warmup_plan(Context &gc);
 
 // C11
-int c11_worker(uint64_t seed, uint64_t from, uint64_t to, uint64_t step, double budget_s, uint64_t samples, const std::string &tier);
+int c11_worker(uint64_t seed, uint64_t from, uint64_t to, uint64_t step, double budget_s, uint64_t samples, const std::string &tier, const std::string &mode);
 int c11_replay(const rt::JVal &plan, bool trace);
 
 } // namespace gen
